@@ -85,6 +85,9 @@ def domain_probes(F, rep):
         ("abs", "GenericAbs", "BigInt", -(2**127), I128, None), ("abs", "GenericAbs", "BigInt", -(2**127) + 1, I128, "BigInt"),
         ("to_ascii", "ByteToAscii", "Byte", 65, U8, "Str"), ("to_ascii", "ByteToAscii", "Byte", 127, U8, "Str"),
         ("to_ascii", "ByteToAscii", "Byte", 128, U8, None), ("to_ascii", "ByteToAscii", "Byte", 200, U8, None),
+        # the square root of a negative number is outside the domain (NaN is "continuing with a wrong value")
+        ("sqrt", "GenericSqrt", "Int", 4, I32, "Float"), ("sqrt", "GenericSqrt", "Int", 0, I32, "Float"), ("sqrt", "GenericSqrt", "Int", -4, I32, None),
+        ("sqrt", "GenericSqrt", "BigInt", -9, I128, None), ("sqrt", "GenericSqrt", "BigInt", 9, I128, "Float"), ("sqrt", "GenericSqrt", "Byte", 9, U8, "Float"),
     ]
     n = 0
     for meth, variant, kind, val, ty, want in rows:
